@@ -137,6 +137,9 @@ AsinFlowBad(x) ==
                  want == DScale2(DSub(DOne, DAbs(Value(x))), -1)            \* (1 - |x|) / 2, exact
              IN (IF Valid(t) /\ ~Value(t).neg /\ DCmp(Value(t), DPow2(-1)) <= 0 THEN {} ELSE {<<"asin_reduced_argument_range", x, t>>})
                 \* t^2 within 40 * 2^-2P relative of (1 - |x|)/2: the polynomial's argument is the intended one
-                \cup (IF Valid(t) /\ DCmpAbs(DSub(DSqr(Value(t)), want), DMul([neg |-> FALSE, mag |-> <<80>>, e |-> -2 * P], want)) <= 0
+                \* (only where (1 - |x|)/2 and the low word of its root are normal numbers: below that the
+                \* halving / the root underflow, which at binary64 moves asin by less than 2^-500)
+                \cup (IF want.mag = <<>> \/ DMsb(want) < EMIN + 4 * P
+                         \/ (Valid(t) /\ DCmpAbs(DSub(DSqr(Value(t)), want), DMul([neg |-> FALSE, mag |-> <<80>>, e |-> -2 * P], want)) <= 0)
                       THEN {} ELSE {<<"asin_reduced_argument_value", x, t>>}))
 =============================================================================
